@@ -218,6 +218,9 @@ func BuildGenesis(enc cosmoscmd.EncodingConfig, cfg GenesisConfig) (map[string]j
 		p := DefaultNodeParams(denom)
 		if cfg.NodeParams != nil {
 			p = *cfg.NodeParams
+		} else if cfg.NumAccounts > 6 {
+			// two designated fishmen (they act only once they register as nodes)
+			p.FishmenInfo = accounts[5].Bech + "," + accounts[6].Bech
 		}
 		ng.Params = p
 		ng.Pool = &nodetypes.Pool{
